@@ -471,13 +471,41 @@ func (f *Flooder) getLocalDisplayName() string {
 	return name
 }
 
+// Limits for a single ROUTE_ADVERTISE. The route count is carried in one byte,
+// and a frame payload cannot exceed protocol.MaxPayloadSize. The encoded
+// routes of one advertisement are kept far enough below that limit that the
+// advertisement still fits after every forwarding hop has extended its path
+// and seen-by list (each at most 255 entries of 16 bytes) and with the longest
+// possible display name.
+const (
+	maxRoutesPerAdvertise     = 255
+	maxRouteBytesPerAdvertise = protocol.MaxPayloadSize - 2*(1+255*16) - (16 + 1 + 255 + 8 + 1 + 3)
+)
+
+// splitRoutes partitions routes, in order, into groups that each fit into one
+// ROUTE_ADVERTISE (at most maxRoutesPerAdvertise routes and
+// maxRouteBytesPerAdvertise encoded bytes). It always returns at least one
+// group. Every group must be sent with a sequence number of its own, otherwise
+// receivers drop all but the first as already seen.
+func splitRoutes(routes []protocol.Route) [][]protocol.Route {
+	var groups [][]protocol.Route
+	start, size := 0, 0
+	for i, r := range routes {
+		routeSize := 2 + len(r.Prefix) + 2
+		if i > start && (i-start >= maxRoutesPerAdvertise || size+routeSize > maxRouteBytesPerAdvertise) {
+			groups = append(groups, routes[start:i])
+			start, size = i, 0
+		}
+		size += routeSize
+	}
+	return append(groups, routes[start:])
+}
+
 // AnnounceLocalRoutes floods all local routes (CIDR, domain, and forward) to all peers.
 func (f *Flooder) AnnounceLocalRoutes() {
 	localRoutes := f.routeMgr.GetLocalRoutes()
 	localDomainRoutes := f.routeMgr.GetLocalDomainRoutes()
 	localForwardRoutes := f.routeMgr.GetLocalForwardRoutes()
-
-	seq := f.routeMgr.IncrementSequence()
 
 	// Convert to protocol routes (CIDR + domain + forward + agent presence)
 	routes := make([]protocol.Route, 0, len(localRoutes)+len(localDomainRoutes)+len(localForwardRoutes)+1)
@@ -536,29 +564,36 @@ func (f *Flooder) AnnounceLocalRoutes() {
 		displayName = ""
 	}
 
-	// Build advertisement
-	adv := &protocol.RouteAdvertise{
-		OriginAgent:       f.localID,
-		OriginDisplayName: displayName,
-		Sequence:          seq,
-		Routes:            routes,
-		Path:              path,    // Keep for backwards compat
-		EncPath:           encPath, // Encrypted path for wire format
-		SeenBy:            []identity.AgentID{f.localID},
-	}
+	// A route set that does not fit into one advertisement (one-byte route
+	// count, frame payload limit) is announced as several advertisements,
+	// each with its own sequence number.
+	for _, group := range splitRoutes(routes) {
+		seq := f.routeMgr.IncrementSequence()
 
-	frame := &protocol.Frame{
-		Type:     protocol.FrameRouteAdvertise,
-		StreamID: protocol.ControlStreamID,
-		Payload:  adv.Encode(),
-	}
+		// Build advertisement
+		adv := &protocol.RouteAdvertise{
+			OriginAgent:       f.localID,
+			OriginDisplayName: displayName,
+			Sequence:          seq,
+			Routes:            group,
+			Path:              path,    // Keep for backwards compat
+			EncPath:           encPath, // Encrypted path for wire format
+			SeenBy:            []identity.AgentID{f.localID},
+		}
 
-	// Send to all peers
-	for _, peerID := range f.sender.GetPeerIDs() {
-		if err := f.sender.SendToPeer(peerID, frame); err != nil {
-			f.logger.Debug("failed to announce local routes",
-				logging.KeyPeerID, peerID.ShortString(),
-				logging.KeyError, err)
+		frame := &protocol.Frame{
+			Type:     protocol.FrameRouteAdvertise,
+			StreamID: protocol.ControlStreamID,
+			Payload:  adv.Encode(),
+		}
+
+		// Send to all peers
+		for _, peerID := range f.sender.GetPeerIDs() {
+			if err := f.sender.SendToPeer(peerID, frame); err != nil {
+				f.logger.Debug("failed to announce local routes",
+					logging.KeyPeerID, peerID.ShortString(),
+					logging.KeyError, err)
+			}
 		}
 	}
 }
@@ -665,8 +700,6 @@ func (f *Flooder) SendFullTable(peerID identity.AgentID) {
 
 	// Send a separate advertisement for each origin
 	for originAgent := range allOrigins {
-		seq := f.routeMgr.IncrementSequence()
-
 		cidrRoutes := byOrigin[originAgent]
 		agentPresenceRoutes := agentByOrigin[originAgent]
 		forwardOriginRoutes := forwardByOrigin[originAgent]
@@ -733,25 +766,31 @@ func (f *Flooder) SendFullTable(peerID identity.AgentID) {
 			}
 		}
 
-		adv := &protocol.RouteAdvertise{
-			OriginAgent:       originAgent,
-			OriginDisplayName: originDisplayName,
-			Sequence:          seq,
-			Routes:            routes,
-			Path:              path,
-			SeenBy:            []identity.AgentID{f.localID},
-		}
+		// One advertisement per group that fits (see splitRoutes), each with
+		// its own sequence number.
+		for _, group := range splitRoutes(routes) {
+			seq := f.routeMgr.IncrementSequence()
 
-		frame := &protocol.Frame{
-			Type:     protocol.FrameRouteAdvertise,
-			StreamID: protocol.ControlStreamID,
-			Payload:  adv.Encode(),
-		}
+			adv := &protocol.RouteAdvertise{
+				OriginAgent:       originAgent,
+				OriginDisplayName: originDisplayName,
+				Sequence:          seq,
+				Routes:            group,
+				Path:              path,
+				SeenBy:            []identity.AgentID{f.localID},
+			}
 
-		if err := f.sender.SendToPeer(peerID, frame); err != nil {
-			f.logger.Debug("failed to send full routing table",
-				logging.KeyPeerID, peerID.ShortString(),
-				logging.KeyError, err)
+			frame := &protocol.Frame{
+				Type:     protocol.FrameRouteAdvertise,
+				StreamID: protocol.ControlStreamID,
+				Payload:  adv.Encode(),
+			}
+
+			if err := f.sender.SendToPeer(peerID, frame); err != nil {
+				f.logger.Debug("failed to send full routing table",
+					logging.KeyPeerID, peerID.ShortString(),
+					logging.KeyError, err)
+			}
 		}
 	}
 }
